@@ -1,4 +1,5 @@
 import CkbVerif.Lemmas.Selector
+import CkbVerif.Lemmas.Template
 
 /-!
 # C13 — every block template handed to miners would be accepted by the node itself
@@ -133,5 +134,48 @@ theorem parents_first_fails_when_stale :
 /-- `get_transaction_weight`: the double arithmetic is pinned on two values (also compared with the
     real function on random inputs by the harness) -/
 example : weight 100 1000000 = 170 ∧ weight 100 70000000000 = 11939998 := by decide
+
+
+/-! ## `TemplateSize` bookkeeping of the assembler's update paths -/
+
+open CkbVerif.Template in
+/-- run a sequence of update paths -/
+def runOps (s : TSt) (ops : List Op) : TSt := ops.foldl Template.step s
+
+open CkbVerif.Template in
+/-- After ANY sequence of `update_blank / update_full / update_uncles / update_proposals /
+    update_transactions`, the `TemplateSize` bookkeeping equals the real size of the described block
+    (header + cellbase + extension + uncles + proposals + transactions) and that size is ≤
+    `max_block_bytes` — provided every transaction selection respects the limit it was given
+    (`selected_within_limits`, i.e. the pool aggregates are not stale) and a blank template fits. -/
+theorem template_size_le_max (s : TSt) (ops : List Op) (h : Template.Inv s)
+    (hsel : ∀ op ∈ ops, op.selOk) (hblank : ∀ op ∈ ops, op.blankOk s.max s.U) :
+    (runOps s ops).sTotal = (runOps s ops).actual ∧ (runOps s ops).actual ≤ s.max := by
+  suffices hs : Template.Inv (runOps s ops) ∧ (runOps s ops).max = s.max from
+    ⟨hs.1.total, hs.2 ▸ hs.1.le⟩
+  unfold runOps
+  induction ops generalizing s with
+  | nil => exact ⟨h, rfl⟩
+  | cons op ops ih =>
+    simp only [List.foldl_cons]
+    have hm := Template.step_max s op
+    have h' := h.step op (hsel op List.mem_cons_self) (hblank op List.mem_cons_self)
+    have := ih (Template.step s op) h'
+      (fun o ho => hsel o (List.mem_cons_of_mem _ ho))
+      (fun o ho => by rw [hm.1, hm.2]; exact hblank o (List.mem_cons_of_mem _ ho))
+    exact ⟨this.1, this.2.trans hm.1⟩
+
+open CkbVerif.Template in
+/-- a blank template of 600 bytes, limit 1000: a full update with 2 proposals and a well-behaved
+    selector stays within the limit (non-vacuity) … -/
+example : (runOps ⟨1000, 228, 600, 0, 0, 0, 0, 0, 0, 600⟩ [.full 2 (fun l => l), .uncles 1 2, .proposals 3]).actual = 1000 := by
+  decide
+
+open CkbVerif.Template in
+/-- … and with a selector that overshoots by 100 bytes (F8: stale `ancestors_size`) `update_full`
+    installs a 1100-byte template: nothing re-checks the total -/
+theorem template_oversize_when_selection_overshoots :
+    (runOps ⟨1000, 228, 600, 0, 0, 0, 0, 0, 0, 600⟩ [.full 2 (fun l => l + 100)]).actual = 1100 := by
+  decide
 
 end CkbVerif.C13
